@@ -1,6 +1,11 @@
 HOOK_COMMITS = []
 NOT_APPLICABLE = {}
 TEXTS = {
+ "C10": {
+  "technique": "property-based testing (rapid): differential against an independent reference matcher on the core domain, logical laws and metamorphic relations on the wide domain",
+  "level_text": "Generated search with three oracles: (1) differential agreement of mongokit.Match with an independently written reference matcher (MongoDB path semantics, type bracketing, NaN unordered, element-or-whole array semantics) inside the declared core domain; (2) the logical laws the property lists, checked reference-free on every generated input incl. nested arrays; (3) metamorphic invariance (unrelated field, wrapping, renaming). Hundreds of thousands (quick) to tens of millions (thorough) of cases; sampling, not proof.",
+  "level_note": "Trusts the reference matcher (harness/ref) for the agreement part; the reference classifies what is outside its domain itself. Laws and metamorphic relations need no reference. Lazy validation of malformed operator arguments is not judged (outside the quantifier).",
+ },
  "C12": {
   "technique": "property-based testing (rapid): generated value triples vs an exact-rational reference order plus order laws",
   "level_text": "Generated search over triples of BSON values with an explicit oracle: agreement of sign(Compare) with an independently written exact reference order (class ranks, numbers as math/big rationals with NaN < -Inf < finite < +Inf) and the order laws (reflexive, antisymmetric, transitive, equal values interchangeable, context invariance). It samples, it does not prove; the generator is biased to the boundaries the property names (2^53, 2^63, non-finite, late differences).",
